@@ -3,8 +3,12 @@ package main
 
 import (
 	"bytes"
+	"encoding/json"
 	"errors"
 	"fmt"
+	"os"
+	"os/exec"
+	"path/filepath"
 	"sort"
 	"strings"
 
@@ -12,6 +16,9 @@ import (
 	"filippo.io/age/internal/zzverif/ev"
 	"filippo.io/age/internal/zzverif/keys"
 	"filippo.io/age/internal/zzverif/lab"
+	"filippo.io/age/internal/zzverif/refage"
+	"filippo.io/age/plugin"
+	"golang.org/x/crypto/ssh"
 )
 
 type countingWriter struct {
@@ -85,6 +92,25 @@ func (k kind) set() string {
 	return strings.Join(l, "\x00") + fmt.Sprint(len(l))
 }
 
+// asSet is the declaration read as a set (duplicates removed); set() reads it as a multiset. Lists on which the two
+// readings give different verdicts are not judged: the property speaks of label sets and does not say what a
+// repeated label means.
+func (k kind) asSet() string {
+	if k.fail != 0 {
+		return "FAIL"
+	}
+	m := map[string]bool{}
+	var l []string
+	for _, x := range k.labels {
+		if !m[x] {
+			m[x] = true
+			l = append(l, x)
+		}
+	}
+	sort.Strings(l)
+	return strings.Join(l, "\x00") + fmt.Sprint(len(l))
+}
+
 func main() {
 	ev.Main("C11", func(c *ev.Ctx) {
 		kinds := []kind{
@@ -93,10 +119,11 @@ func main() {
 			{"abc", "set", []string{"a", "b", "c"}, 0}, {"cab", "set", []string{"c", "a", "b"}, 0}, {"bca", "set", []string{"b", "c", "a"}, 0}, {"cba", "set", []string{"c", "b", "a"}, 0},
 			{"A", "set", []string{"A"}, 0}, {"a_", "set", []string{"a "}, 0}, {"aa", "set", []string{"aa"}, 0},
 			{"a,b(one label)", "set", []string{"a,b"}, 0}, {"emptystring", "set", []string{""}, 0}, {"a+empty", "set", []string{"a", ""}, 0},
+			{"aa(dup)", "set", []string{"a", "a"}, 0}, {"aba(dup)", "set", []string{"a", "b", "a"}, 0},
 			{"fail", "none", nil, 1}, {"failL", "set", []string{"a"}, 2}, {"zero-ScryptRecipient(wrap fails)", "real", nil, 3},
 		}
 		maxLen := c.Pick(4, 5)
-		c.Bound("every list of 1..%d recipients over %d label declarations (no WrapWithLabels method, nil, empty, {a}, {b}, {a,b} in both orders, {a,b,c} in 4 orders, case and whitespace variants, a label containing a comma, the empty-string label, failing recipients with and without labels incl. a zero-value ScryptRecipient), each wrapping through a real X25519 recipient", maxLen, len(kinds))
+		c.Bound("every list of 1..%d recipients over %d label declarations (no WrapWithLabels method, nil, empty, {a}, {b}, {a,b} in both orders, {a,b,c} in 4 orders, case and whitespace variants, {a,a} and {a,b,a} with a repeated label (judged where the set and multiset readings agree), a label containing a comma, the empty-string label, failing recipients with and without labels incl. a zero-value ScryptRecipient), each wrapping through a real X25519 recipient", maxLen, len(kinds))
 		keyset := []*keys.Key{keys.X(0), keys.X(1), keys.X(2), keys.X(3), keys.X(4)}
 		var rec func(cur []int)
 		cnt := 0
@@ -107,8 +134,9 @@ func main() {
 					var asked []int
 					var rs []age.Recipient
 					var names []string
-					wantOK := true
+					wantOK, wantOKSet := true, true
 					first := kinds[cur[0]].set()
+					firstSet := kinds[cur[0]].asSet()
 					firstFail := -1
 					for pos, ki := range cur {
 						k := kinds[ki]
@@ -129,14 +157,20 @@ func main() {
 							rs = append(rs, &withLabels{plain: p, labels: k.labels, isNil: k.method == "nil"})
 						}
 						if k.fail != 0 {
-							wantOK = false
+							wantOK, wantOKSet = false, false
 							if firstFail < 0 {
 								firstFail = pos
 							}
-						} else if k.set() != first && kinds[cur[0]].fail == 0 {
-							wantOK = false
+						} else if kinds[cur[0]].fail == 0 {
+							if k.set() != first {
+								wantOK = false
+							}
+							if k.asSet() != firstSet {
+								wantOKSet = false
+							}
 						}
 					}
+					ambiguous := wantOK != wantOKSet // hinges on what a repeated label means
 					id := strings.Join(names, ",")
 					if !c.Replaying() || c.Want(id) {
 						c.Eval(1)
@@ -164,6 +198,8 @@ func main() {
 						switch {
 						case pan != "":
 							c.Fail("panic", id, pan, det)
+						case ambiguous:
+							c.Outcome("repeated-label: not judged")
 						case wantOK && err != nil:
 							c.Fail("equal-label-sets-refused", id, "Encrypt refuses recipients that all declare the same label set: "+err.Error(), det)
 						case !wantOK && err == nil:
@@ -171,7 +207,7 @@ func main() {
 						case !wantOK && (w.n != 0 || w.calls != 0):
 							c.Fail("bytes-written-on-refusal", id, fmt.Sprintf("%d bytes in %d writes reached the destination although Encrypt refused", w.n, w.calls), det)
 						}
-						if wantOK && err == nil && pan == "" {
+						if (wantOK || ambiguous) && err == nil && pan == "" {
 							pt := []byte("labels ok")
 							wc.Write(pt)
 							wc.Close()
@@ -199,6 +235,120 @@ func main() {
 			}
 		}
 		rec(nil)
+
+		// ------------------------------------------------ the age command with plugin recipients that declare labels
+		if sim, ageBin := os.Getenv("VERIF_PLUGINSIM"), os.Getenv("VERIF_AGE_BIN"); sim != "" && ageBin != "" {
+			c.Part("cmd-age-plugin-labels")
+			dir, err := os.MkdirTemp("", "verif-c11-")
+			if err != nil {
+				panic(err)
+			}
+			defer os.RemoveAll(dir)
+			pathDir := filepath.Join(dir, "bin")
+			work := filepath.Join(dir, "work")
+			os.MkdirAll(pathDir, 0o755)
+			os.MkdirAll(work, 0o755)
+			type ck struct {
+				name   string
+				arg    string // recipient string
+				labels string // "-" = native / no labels stanza
+			}
+			edLine := strings.TrimSpace(string(ssh.MarshalAuthorizedKey(keys.Ed(0).SSHPub)))
+			cks := []ck{{"x25519", keys.X(0).Rcpt.(fmt.Stringer).String(), "-"}, {"ssh-ed25519", edLine, "-"}}
+			for _, pl := range []struct{ name, labels string }{{"nl", "-"}, {"pq", "postquantum"}, {"pqq", "postquantum"}, {"ab", "a b"}, {"ba", "b a"}} {
+				os.Symlink(sim, filepath.Join(pathDir, "age-plugin-"+pl.name))
+				send := "-> recipient-stanza 0 simst " + pl.name + "\nAAAA\n"
+				if pl.labels != "-" {
+					send += "-> labels " + pl.labels + "\n\n"
+				}
+				send += "-> done\n\n"
+				b, _ := json.Marshal(map[string]interface{}{"send": send})
+				os.WriteFile(filepath.Join(pathDir, "age-plugin-"+pl.name+".json"), b, 0o644)
+				cks = append(cks, ck{"plugin-" + pl.name + "[" + pl.labels + "]", plugin.EncodeRecipient(pl.name, []byte("data "+pl.name)), pl.labels})
+			}
+			norm := func(l string) string {
+				if l == "-" {
+					return ""
+				}
+				f := strings.Fields(l)
+				sort.Strings(f)
+				return strings.Join(f, " ")
+			}
+			c.Bound("age -o out (-r ... | -R file) for every list of 1..3 recipients over %d kinds {x25519, ssh-ed25519, plugin without labels, two plugins declaring {postquantum}, plugins declaring {a,b} and {b,a}} (scripted plugins on a private PATH): exit 0 with one stanza per recipient iff all label sets are equal, otherwise non-zero exit and no output file", len(cks))
+			os.WriteFile(filepath.Join(work, "in"), []byte("cli labels"), 0o600)
+			n := 0
+			var recc func(cur []int)
+			recc = func(cur []int) {
+				if len(cur) > 0 {
+					for _, viaFile := range []bool{false, true} {
+						n++
+						if !c.MineKey(n) {
+							continue
+						}
+						var names, args []string
+						wantOK := true
+						rf := ""
+						for _, ki := range cur {
+							names = append(names, cks[ki].name)
+							if norm(cks[ki].labels) != norm(cks[cur[0]].labels) {
+								wantOK = false
+							}
+							if viaFile {
+								rf += cks[ki].arg + "\n"
+							} else {
+								args = append(args, "-r", cks[ki].arg)
+							}
+						}
+						id := fmt.Sprintf("cli.%s.file%v", strings.Join(names, ","), viaFile)
+						if c.Replaying() && !c.Want(id) {
+							continue
+						}
+						if viaFile {
+							os.WriteFile(filepath.Join(work, "recs.txt"), []byte(rf), 0o600)
+							args = []string{"-R", "recs.txt"}
+						}
+						outp := filepath.Join(work, "out.age")
+						os.Remove(outp)
+						cmd := exec.Command(ageBin, append(args, "-o", "out.age", "in")...)
+						cmd.Dir = work
+						cmd.Env = append(os.Environ(), "PATH="+pathDir, "VERIF_PLUGIN_SCRIPT_DIR="+pathDir, "VERIF_PLUGIN_SCRIPT=", "VERIF_PLUGIN_LOG=", "VERIF_PLUGIN_EXECLOG=", "AGEDEBUG=")
+						var stderr bytes.Buffer
+						cmd.Stderr = &stderr
+						rerr := cmd.Run()
+						c.Eval(1)
+						c.DistinctOnce(ev.HashStr(id))
+						out, ferr := os.ReadFile(outp)
+						det := map[string]interface{}{"recipients": names, "via_recipients_file": viaFile, "exit": fmt.Sprint(rerr), "stderr": ev.Clip(stderr.String(), 300), "output_bytes": len(out)}
+						switch {
+						case wantOK && rerr != nil:
+							c.Fail("equal-label-sets-refused/cli", id, "age refuses recipients that all declare the same label set", det)
+						case wantOK:
+							h, _, perr := refage.ParseHeader(out)
+							if perr != nil || len(h.Stanzas) != len(cur) {
+								c.Fail("accepted-file-does-not-decrypt/cli", id, "output does not carry one stanza per recipient", det)
+							}
+							c.Outcome("cli accepted")
+						case rerr == nil:
+							c.Fail("different-label-sets-accepted/cli", id, "age writes a file for recipients with different label sets", det)
+						case ferr == nil:
+							c.Fail("bytes-written-on-refusal/cli", id, "the output file was created although the recipients are incompatible", det)
+						default:
+							c.Outcome("cli refused")
+						}
+						if c.WantSample() && len(cur) == 2 {
+							c.Sample(det)
+						}
+					}
+				}
+				if len(cur) == 3 {
+					return
+				}
+				for i := range cks {
+					recc(append(append([]int{}, cur...), i))
+				}
+			}
+			recc(nil)
+		}
 
 		// shared backing arrays: one labels slice object handed out to several recipients and several Encrypt calls
 		c.Part("shared-label-slices")
